@@ -93,7 +93,16 @@ def c07_one(rec, case):
         for ver in versions:
             md = os.path.join(d, 'v%d' % ver)
             os.makedirs(md)
-            (pkg.write_v1 if ver == 1 else pkg.write_v2)(md, spec)
+            # the same SEDs stored in another flux-density unit (the convolved fluxes are in mJy whatever the package holds)
+            stored = getattr(u, c.get('stored_unit', 'mJy'))
+            if stored is u.mJy:
+                spec_w = spec
+            else:
+                import copy as _copy
+                k_ = (1. * u.mJy).to(stored).value
+                spec_w = _copy.copy(spec)
+                spec_w.flux, spec_w.error = spec.flux * k_, spec.error * k_
+            (pkg.write_v1 if ver == 1 else pkg.write_v2)(md, spec_w, unit=stored)
             try:
                 with pkg.quiet():
                     if c.get('two_calls') and len(filters) > 1:
@@ -150,18 +159,19 @@ def c07_one(rec, case):
 def run_c07(tier, seed):
     rec = Recorder('C07', 'packages with 1..8 models, 1..5 apertures, permuted parameter tables, SEDs stored in either spectral order, 1..3 filters (one or two '
                           'convolve calls), both formats, memmap on/off; every row of every convolved-flux file compared with an independent convolution of the '
-                          'SED it is labelled with; per-file vs cube; fits from either; distinct = configuration tuple')
+                          'SED it is labelled with; per-file vs cube; fits from either; packages stored in mJy or in Jy; distinct = configuration tuple')
     rng = np.random.default_rng(seed + 7)
     n = 24 if tier == 'quick' else 200
     for t in range(n):
         case = dict(seed=seed, tag='c07', pseed=int(rng.integers(1, 10 ** 6)), n_models=int(rng.integers(1, 9)), n_ap=int(rng.integers(1, 6)), n_wav=int(rng.integers(12, 40)),
                     wav_desc=bool(t % 2), f_desc=bool((t // 2) % 2), nf=int(rng.integers(3, 9)), n_filters=1 + t % 3, memmap=bool((t // 3) % 2), two_calls=bool(t % 4 == 1),
-                    fit=bool(t % 3 == 2), sorted_names_reversed=bool(t % 5 == 3), mixed_grids=bool(t % 4 == 2), postprocess_between=bool(t % 8 == 1))
+                    fit=bool(t % 3 == 2), sorted_names_reversed=bool(t % 5 == 3), mixed_grids=bool(t % 4 == 2), postprocess_between=bool(t % 8 == 1),
+                    stored_unit=('Jy' if t % 6 == 4 else 'mJy'))
         try:
             c07_one(rec, case)
         except Exception as e:
             rec.fail('c07_crash', 'raised %s: %s' % (type(e).__name__, e), case)
-        rec.case(key=('c07', case['n_ap'] > 1, case['wav_desc'], case['n_filters'], case['memmap'], case['two_calls']), nontrivial=case['n_models'] > 1,
+        rec.case(key=('c07', case['n_ap'] > 1, case['wav_desc'], case['n_filters'], case['memmap'], case['two_calls'], case['stored_unit']), nontrivial=case['n_models'] > 1,
                  sample=case if t < 2 else None)
     return rec, REPLAY
 
